@@ -187,6 +187,44 @@ func c16Worker(args []string) int {
 				fmt.Printf("DIFF round %d: the shared resolver's Hints map was modified (%d entries, had 1)\n", round, len(hints))
 			}
 		}
+		// the hand-written corpus files (every construct a seeded change was about) through the same mill: each
+		// goroutine its own file, decorator and restorer, one shared identifier resolver and one shared name resolver
+		{
+			paths, _ := filepath.Glob(filepath.Join(verifRoot(), "corpus", "extra", "*.go"))
+			sort.Strings(paths)
+			var xs [][]byte
+			var xw []string
+			for _, p := range paths {
+				b, err := os.ReadFile(p)
+				if err != nil || len(b) > 20000 {
+					continue
+				}
+				w, err := c16One(b, "example.com/local", goast.New(), guess.New())
+				if err != nil {
+					continue // refused (dot-import, one name for two paths): nothing to compare
+				}
+				xs, xw = append(xs, b), append(xw, w)
+			}
+			for round := 0; round < 6; round++ {
+				shared, rr := goast.New(), guess.New()
+				var wg sync.WaitGroup
+				for i := range xs {
+					wg.Add(1)
+					go func(i int) {
+						defer wg.Done()
+						for k := 0; k < 2; k++ {
+							got, err := c16One(xs[i], "example.com/local", shared, rr)
+							if err != nil {
+								fmt.Printf("DIFF corpus file %d: error %v (alone: none)\n", i, err)
+							} else if got != xw[i] {
+								fmt.Printf("DIFF corpus file %d round %d: concurrent result %s, alone %s\n", i, round, got, xw[i])
+							}
+						}
+					}(i)
+				}
+				wg.Wait()
+			}
+		}
 		// repeated decoration of the same parsed files through one shared identifier resolver, some of which
 		// the resolver must refuse: every repetition answers like the call made alone with a fresh resolver
 		{
